@@ -40,7 +40,7 @@ MUTANTS = [
  ("C07", "stack-mapping-draws-shared", G+"representations/stackgggp/__init__.py",
   "add_to_stacks(stacks, bool, r.random_bool())", "add_to_stacks(stacks, bool, __import__('random').random() < 0.5)"),
  ("C08", "stack-set-order", G+"representations/stackgggp/__init__.py",
-  "all_stack_types = sorted(g.get_all_mentioned_symbols(), key=repr)", "all_stack_types = g.get_all_mentioned_symbols()"),
+  "    all_stack_types = ordered_stack_types(g)\n", "    all_stack_types = g.get_all_mentioned_symbols()\n"),
  ("C08", "decider-iterates-set", G+"representations/tree/initializations.py",
   "        alternatives = [\n            x for x in alternatives if self.grammar.get_distance_to_terminal(x) <= (self.max_depth - ctx.depth)\n        ]\n        return self.random.choice(alternatives)\n\n    def validate",
   "        alternatives = list({\n            x for x in alternatives if self.grammar.get_distance_to_terminal(x) <= (self.max_depth - ctx.depth)\n        })\n        return self.random.choice(alternatives)\n\n    def validate"),
